@@ -255,6 +255,13 @@ func (vs *ValidatorStore) ExecuteAllegationTracker(ctx *ValidatorContext, active
 					continue
 				}
 				logger.Detailf("Successfully added bounty coin to bounty address: %s\n", bountyAddress.Humanize())
+				// postpone the update of the validator record for next block (only when the
+				// delegation records were reduced: record and total must stay equal)
+				err = vs.delayHandleUnstake(validator.Address, *balance.NewAmountFromBigInt(pAmt))
+				if err != nil {
+					logger.Errorf("Failed to update postponed: %s\n", err)
+					continue
+				}
 			} else {
 				logger.Detailf("Nothing to withdraw from addr on bounty program: %s\n", bountyAddress.Humanize())
 			}
@@ -267,12 +274,6 @@ func (vs *ValidatorStore) ExecuteAllegationTracker(ctx *ValidatorContext, active
 			amt, err = ctx.Delegators.GetValidatorAmount(validator.Address)
 			if err != nil {
 				logger.Errorf("Failed to get balance from delegators: %s\n", err)
-				continue
-			}
-			// postpone the update for next block
-			err = vs.delayHandleUnstake(validator.Address, *balance.NewAmountFromBigInt(pAmt))
-			if err != nil {
-				logger.Errorf("Failed to update postponed: %s\n", err)
 				continue
 			}
 		} else if shareAbove(noCount, options.AllegationDecimals-options.AllegationPercentage) {
